@@ -62,6 +62,8 @@ class StubLoss:
         STATE["loss_calls"] += 1
         if ("L", k) in STATE["faults"]:
             raise StubFault("loss")
+        # the loss must be computed against THE real data: record what is passed in
+        STATE.setdefault("real_args", set()).add((real_data.shape, real_data.tobytes()))
         d = STATE["dims"]
         theta = sim_data_ensemble[0][:d, 0]
         key = tuple(f2h(x) for x in theta)
@@ -166,6 +168,7 @@ class Scn:
     ops: list = field(default_factory=list)         # ("C", n) | ("K",) | ("R",) | ("SS", lineup) | ("SCH", lineup, "rr")
     loss_fn: str | None = None                      # name in LOSS_FNS (then the table for the model is derived from the run)
     keep_folder: bool = False
+    real_len: int | None = None                     # length of the real series (default: simlen)
     agent: str = "scripted"                         # "scripted" | "eps" (MABEpsilonGreedy)
     agent_opts: tuple = (-1.0, 0.1, 0.0)
     bounds: tuple = ((0.0,), (100.0,))
@@ -285,7 +288,7 @@ def run_real(scn: Scn, model=None):
 
     STATE.update(model_calls=0, loss_calls=0, sampler_calls=0, faults=set(map(tuple, scn.faults)), dims=scn.dims,
                  loss_table={tuple(f2h(x) for x in k): v for k, v in scn.loss_table.items()}, loss_default=scn.loss_default,
-                 loss_fn=scn.loss_fn, loss_seen={})
+                 loss_fn=scn.loss_fn, loss_seen={}, real_args=set())
     next_obj = [0]
     folder = tempfile.mkdtemp(prefix="vpcal") if (scn.folder or any(o[0] in ("K", "R") for o in scn.ops)) else None
     lines, info = [], {"returns": [], "exc": [], "lineups": []}
@@ -337,7 +340,10 @@ def run_real(scn: Scn, model=None):
                 for s in kw["scheduler"].samplers:
                     if not hasattr(s, "_vp_obj"):
                         s._vp_obj = next_obj[0]; s._vp_calls = 0; next_obj[0] += 1; s._vp_entropy = True
-            cal = Calibrator(loss_function=StubLoss(), real_data=np.zeros((scn.simlen, 1)), model=model,
+            rl = scn.real_len or scn.simlen
+            real = (1000.0 + np.arange(rl, dtype=float)).reshape(rl, 1)
+            info["real_data"] = real.copy()
+            cal = Calibrator(loss_function=StubLoss(), real_data=real, model=model,
                              parameters_bounds=[list(scn.bounds[0]), list(scn.bounds[1])], parameters_precision=list(scn.precision),
                              ensemble_size=scn.ensemble, sim_length=scn.simlen, convergence_precision=scn.conv,
                              verbose=scn.verbose, saving_folder=folder if scn.folder else None, random_state=scn.seed,
@@ -346,9 +352,13 @@ def run_real(scn: Scn, model=None):
             for op in scn.ops:
                 if op[0] == "C":
                     try:
-                        p, l = cal.calibrate(op[1])
+                        p, l = _with_watchdog(lambda: cal.calibrate(op[1]))
                         lines.append("ok " + dump(cal, scn) + f" result=[{canon_result(p, l)}]")
                         info["returns"].append((np.array(p), np.array(l)))
+                    except Hang:
+                        lines.append("hang:calibrate_did_not_return_within_the_watchdog n=? b=?")
+                        info["exc"].append("hang")
+                        break
                     except StubFault as e:
                         lines.append(f"raise:{e.kind} " + dump(cal, scn))
                         info["exc"].append(e.kind)
@@ -390,6 +400,32 @@ def run_real(scn: Scn, model=None):
         if folder and not scn.keep_folder:
             shutil.rmtree(folder, ignore_errors=True)
     return lines, info
+
+
+class Hang(Exception):
+    pass
+
+
+def _with_watchdog(fn, timeout=20.0):
+    """run fn in a daemon thread; a call that does not return (deadlock in the code under test) becomes an outcome"""
+    import threading
+    box = {}
+
+    def target():
+        try:
+            box["r"] = fn()
+        except BaseException as e:  # noqa: BLE001
+            box["e"] = e
+
+    # stdout redirection is per-process: keep it; the thread inherits STATE
+    t = threading.Thread(target=target, daemon=True, name="vp-calibrate")
+    t.start()
+    t.join(timeout)
+    if t.is_alive():
+        raise Hang
+    if "e" in box:
+        raise box["e"]
+    return box["r"]
 
 
 def _smp_tok(ci, bs, obj, calls, seed):
